@@ -298,7 +298,7 @@ func init() {
 			"(2) the same calls issued concurrently by 8 goroutines on shared values under the Go race detector (any report = a write by a read-only API); " +
 			"(3) determinism: each output recomputed 12 times from fresh parses in-process (Go randomises map iteration per range statement) and across 4 fresh processes of the real binary; non-trivial = every subject; distinct = distinct (subject, call sequence)",
 		Floors: map[string]int{"read_only_calls": 100000, "patched_after_rendering": 10000, "call:RenderPatch": 10000, "call:RenderMerge": 10000,
-			"determinism_recomputations": 50000, "race_goroutine_calls": 20000, "cross_process_runs": 400, "src:merge-text": 2000, "src:patch-text": 2000, "shared_option_slice_with_render_option": 3000, "opt_precision_subjects": 500, "partial_digest_collisions": 100, "same_content_different_handles": 100},
+			"determinism_recomputations": 50000, "race_goroutine_calls": 20000, "cross_process_runs": 400, "src:merge-text": 2000, "src:patch-text": 2000, "shared_option_slice_with_render_option": 3000, "opt_precision_subjects": 500, "partial_digest_collisions": 100, "same_content_different_handles": 100, "unusual_environment_repetitions": 1000},
 		Assumptions: []string{
 			"Patch is not claimed pure (it edits its receiver) and is always applied to a fresh parse",
 			"the race detector only sees writes that actually execute on the generated subjects",
@@ -371,7 +371,22 @@ func init() {
 			c15Inputs(c, s)
 			c.Feature("src:" + s.src)
 			first := map[string]string{}
+			// outputs are a function of the inputs, not of the process environment either: a few repetitions run with
+			// the colour / locale / terminal variables tools commonly look at set to unusual values
+			envs := map[int][][2]string{5: {{"CLICOLOR_FORCE", "1"}, {"FORCE_COLOR", "1"}, {"TERM", "xterm-256color"}}, 8: {{"NO_COLOR", "1"}, {"CLICOLOR", "0"}, {"TERM", "dumb"}},
+				10: {{"LANG", "tr_TR.UTF-8"}, {"LC_ALL", "tr_TR.UTF-8"}, {"TZ", "Pacific/Kiritimati"}, {"COLORTERM", "truecolor"}}}
 			for rep := 0; rep < 12; rep++ {
+				if vars, ok := envs[rep]; ok && i%4 == 0 {
+					for _, kv := range vars {
+						os.Setenv(kv[0], kv[1])
+					}
+					c.Feature("unusual_environment_repetitions")
+					defer func(vars [][2]string) {
+						for _, kv := range vars {
+							os.Unsetenv(kv[0])
+						}
+					}(vars)
+				}
 				A, B, d, err := s.build()
 				if err != nil {
 					c.Skip("text not readable")
